@@ -469,6 +469,7 @@ type SackCfg struct {
 	ServerISN    uint32        `json:"server_isn"`
 	NoSynAck     bool          `json:"no_synack,omitempty"` // handshake never shown to the capture handle
 	TruncTS      bool          `json:"trunc_ts,omitempty"`  // timestamps option with a short length
+	Bare         bool          `json:"bare,omitempty"`      // the SYN-ACK has a 20-byte TCP header: no option at all, not even MSS
 	SynAckUs     int64         `json:"synack_us,omitempty"`
 	NoListen     bool          `json:"no_listen,omitempty"` // port closed
 	DropSyn      bool          `json:"drop_syn,omitempty"`  // the target silently drops the SYN (full accept queue): connect times out; real time only
@@ -612,6 +613,10 @@ func (s *SackServer) synAcks(n *NetWorld, remote netip.AddrPort) []Sched {
 		opts = append(opts, ts...)
 	}
 	opts = append(opts, 1, 3, 3, 7)
+	if c.Bare {
+		opts = nil
+		fs.hasTS, fs.tsNegotiated = false, false
+	}
 	for i, x := range c.ExtraSynAcks {
 		src, dst := s.Addr, remote
 		flags := uint8(TCPSyn | TCPAck)
